@@ -145,6 +145,49 @@ def inline_measures_calls(ctx: Ctx, e: ast.expr) -> ast.expr:
     return ast.fix_missing_locations(_Inline().visit(_copy.deepcopy(e)))
 
 
+def count_source_table(ctx: Ctx, member: str):
+    """{(weighted valid counts present, unweighted valid counts present, weighted counts present): name of the count
+    measure `Cube.<member>` hands out} - or a string saying why the table could not be derived."""
+    from ..dectab import DTop, Raises, Sym, SymInterp
+    from ..symex import distribute_attr, fold_consts
+
+    cube = ctx.repo.cls("cube.py", "Cube")
+    if ctx.repo.lookup(cube, member) is None:
+        raise AnalysisError(f"Cube.{member} vanished")
+    e = expand(ctx.repo, cube, member, stop=lambda m: m.name not in (member, "has_weighted_counts", "weighted_counts", "counts_with_missings") and not (m.name.startswith("_") and m.cls.name == "Cube" and m.name not in ("_measures", "_valid_idxs", "_all_dimensions", "_cube_response")))
+    e = distribute_attr(fold_consts(inline_measures_calls(ctx, e)))
+    names = ["weighted_valid_counts", "unweighted_valid_counts", "weighted_counts", "unweighted_counts"]
+    table = {}
+    for combo in itertools.product((True, False), repeat=3):
+        present = dict(zip(names[:3], combo))
+        present["unweighted_counts"] = True
+
+        def atoms(x, present=present):
+            t = u(x)
+            for nm in names:
+                if t == f"self._measures.{nm}":
+                    return Sym(f"self._measures.{nm}") if present[nm] else None
+            raise KeyError
+
+        class _I(SymInterp):
+            def compare(self, op, a, b):
+                if isinstance(op, (ast.Is, ast.IsNot)) and (a is None or b is None):
+                    same = a is None and b is None
+                    return same if isinstance(op, ast.Is) else not same
+                return super().compare(op, a, b)
+
+        try:
+            got = _I(atoms).ev(e)
+        except (DTop, Raises) as exc:
+            return "DECTAB: " + str(exc)
+        got_t = got.text if isinstance(got, Sym) else repr(got)
+        sel = [nm for nm in names if f"self._measures.{nm}" in got_t]
+        if len(sel) != 1:
+            return f"selected measure not recognisable in {got_t[:80]}"
+        table[combo] = sel[0]
+    return table
+
+
 def count_cascade(ctx: Ctx, rule: str, member: str, order, expected_text: str, detail: str):
     """Which count measure a Cube accessor hands out, as a decision table over the measures PRESENT in the response."""
     from ..dectab import DTop, Raises, Sym, SymInterp
